@@ -62,6 +62,7 @@ Theorem suspended_stage_untouched_start_stage s id i k st :
   Forall (fun c => forallb quiet c = true) (h_commits (handle_start_stage s id i k)).
 Proof.
   intros Hs E. unfold handle_start_stage. rewrite Hs.
+  destruct (parent_not_started s st). { constructor; [reflexivity|constructor]. }
   assert (start_stage_late (s_status st) = true) as L by (rewrite E; reflexivity).
   assert (start_stage_fresh (s_status st) = false) as Fr by (rewrite E; reflexivity).
   match goal with |- context [match rr_phase ?r with _ => _ end] => destruct (rr_phase r) end.
